@@ -54,7 +54,13 @@ func world(thorough bool) {
 	var err error
 	P, err = chainlab.NewPrelude(net, 16)
 	if err != nil {
-		ev.Fatal("prelude: %v", err)
+		if par.IsWorker() {
+			ev.Fatal("prelude: %v", err)
+		}
+		// a linear chain of valid blocks refused by a fresh node says nothing about dependence on forks seen before (valid blocks are C13's subject)
+		run := ev.Start("C10", "model_checking")
+		run.Capped(fmt.Sprintf("world: could not be set up: %v", err))
+		run.Finish()
 	}
 	w := chainlab.NewWorld(net, P.Tip, P.Base)
 	contract := []byte{0x51}
